@@ -67,8 +67,8 @@ func replayOnce(c *Ctx, rf *ReplayFile) (bool, string, error) {
 		return true, fmt.Sprintf("target %s: %s line %d: %q in a cold process vs %q after the earlier step of the session", rf.Target, file, line, clip(l0, 100), clip(l1, 100)), nil
 	case "lib-c13-unseamed":
 		sigs := map[string]bool{}
-		for k := 0; k < 12; k++ {
-			r, err := DoFresh(c.sc.Worker, &Req{Op: "gen", DSL: in, History: rf.History, Sched: *rf.Sched}, []int{1, 4, 16}[k%3])
+		for k := 0; k < 15; k++ {
+			r, err := DoFresh(c.sc.Worker, &Req{Op: "gen", DSL: in, History: rf.History, Sched: *rf.Sched}, []int{1, 4, 16, 2, 3}[k%5])
 			if err != nil {
 				return false, "", err
 			}
@@ -78,7 +78,7 @@ func replayOnce(c *Ctx, rf *ReplayFile) (bool, string, error) {
 			}
 			sigs[s] = true
 		}
-		return len(sigs) > 1, fmt.Sprintf("%d distinct outputs in 12 fresh processes under the identical schedule", len(sigs)), nil
+		return len(sigs) > 1, fmt.Sprintf("%d distinct outputs in 15 fresh processes (GOMAXPROCS 1/4/16/2/3) under the identical schedule", len(sigs)), nil
 	case "cli-c13", "cli-c14":
 		oa, err := c.sc.RunCLI(rf.CLIRef)
 		if err != nil {
@@ -118,6 +118,34 @@ func replayOnce(c *Ctx, rf *ReplayFile) (bool, string, error) {
 			}
 		}
 		return true, fmt.Sprintf("target %s: %v", rf.Target, clipList(diffs, 2)), nil
+	case "cli-c14-obstacle":
+		layout := fmt.Sprint(rf.Expect["layout"])
+		long := false
+		for _, a := range rf.CLI.Argv {
+			if a == "--file" {
+				long = true
+			}
+		}
+		sub := len(rf.CLI.Argv) > 0 && rf.CLI.Argv[0] == "compile"
+		abs := strings.Contains(strings.Join(rf.CLI.Argv, " "), "{SB}")
+		alone := map[string]*CLIOutcome{}
+		plain := []DiskEntry{{Path: "in.dsl", Kind: "file", Data: in}}
+		for _, u := range rf.History {
+			ou, err := c.sc.RunCLI(&CLIWorld{Argv: compileArgv([]string{u}, long, sub, abs), Disk0: plain, Sched: s0()})
+			if err != nil {
+				return false, "", err
+			}
+			alone[u] = ou
+		}
+		ob, err := c.sc.RunCLI(rf.CLI)
+		if err != nil {
+			return false, "", err
+		}
+		d := layoutDiff(alone, ob, layoutDirs(layout, AllTargets), rf.History, rf.Target)
+		if len(d) > 0 {
+			return true, fmt.Sprintf("target %s lost what it had written when %v failed later: %v", rf.Target, rf.Expect["failing_target"], clipList(d, 2)), nil
+		}
+		return false, "the files of target " + rf.Target + " survive the later target's failure", nil
 	case "cli-c14-layout":
 		layout := fmt.Sprint(rf.Expect["layout"])
 		alone := map[string]*CLIOutcome{}
